@@ -12,6 +12,7 @@ import (
 	"os"
 	"sort"
 	"strings"
+	"time"
 
 	"verif/engine/dfs"
 	"verif/engine/evid"
@@ -332,49 +333,58 @@ func scenarios(thorough bool) []scen {
 func Run(c *evid.Ctx) {
 	scs := scenarios(c.Thorough())
 	if w := shard.Worker(); w != nil {
-		for _, s := range scs {
-			pb, fb := 2, 1
-			if c.Thorough() {
-				pb, fb = 3, 2
-			}
-			if !s.cutAll {
-				fb = 0
-			}
-			if s.queue && !s.clear {
-				// the background goroutine's polling makes executions ~100 steps long: one preemption
-				// less than in direct mode
-				pb--
-			}
-			st, viols, err := dfs.Explore(s.scenario(), dfs.Config{Preemptions: pb, Faults: fb, StepCap: 4000, MaxExec: 400000, ShardI: w.I, ShardN: w.N}, false)
-			if err != nil {
-				c.Broken(err.Error() + " in " + s.String())
-				continue
-			}
-			if w.I == 0 {
-				c.Count("scenarios", 1)
-			}
-			c.Count("states", int64(st.Executions))
-			c.Count("transitions", int64(st.Steps))
-			c.Count("choice_points", int64(st.Points))
-			if st.Capped {
-				c.NotExhaustive("execution cap hit in " + s.name)
-			}
-			if w.I == 1 {
-				c.Sample(map[string]interface{}{"scenario": s.String(), "executions_in_this_shard_of_16": st.Executions, "preemption_bound": pb, "fault_bound": fb})
-			}
-			if os.Getenv("VERIF_DEBUG") != "" {
-				fmt.Fprintf(os.Stderr, "C06 %s: %d executions, %d steps\n", s.name, st.Executions, st.Steps)
-			}
-			for _, v := range viols {
-				kind := strings.SplitN(v.Verdict, ":", 2)[0]
-				mode := "direct"
-				if s.queue {
-					mode = "queue"
+		// The thorough tier iterates the bounds: first everything within the quick tier's bounds
+		// (2 preemptions, 1 fault), then 3 preemptions / 2 faults under an execution cap and a
+		// wall-clock budget per worker; a cap hit is reported as non-exhaustive for the larger bound.
+		type bnd struct{ pb, fb, maxExec int }
+		rounds := []bnd{{2, 1, 400000}}
+		var deadline time.Time
+		if c.Thorough() {
+			rounds = append(rounds, bnd{3, 2, 60000})
+			deadline = time.Now().Add(28 * time.Minute)
+		}
+		for ri, r := range rounds {
+			for _, s := range scs {
+				pb, fb := r.pb, r.fb
+				if !s.cutAll {
+					fb = 0
 				}
-				if s.clear {
-					mode = "sendAndClear"
+				if s.queue && !s.clear {
+					// the background goroutine's polling makes executions ~100 steps long: one preemption
+					// less than in direct mode
+					pb--
 				}
-				c.Violation(fmt.Sprintf("C06:%s:%s", mode, kind), fmt.Sprintf("%s — %s — choices %v", s.String(), v.Verdict, v.Choices), map[string]interface{}{"engine": "E1", "scenario": s.String(), "choices": v.Choices, "trace": v.Trace})
+				st, viols, err := dfs.Explore(s.scenario(), dfs.Config{Preemptions: pb, Faults: fb, StepCap: 4000, MaxExec: r.maxExec, Deadline: deadline, ShardI: w.I, ShardN: w.N}, false)
+				if err != nil {
+					c.Broken(err.Error() + " in " + s.String())
+					continue
+				}
+				if w.I == 0 && ri == 0 {
+					c.Count("scenarios", 1)
+				}
+				c.Count("states", int64(st.Executions))
+				c.Count("transitions", int64(st.Steps))
+				c.Count("choice_points", int64(st.Points))
+				if st.Capped {
+					c.NotExhaustive(fmt.Sprintf("execution cap or time budget hit in %s at bounds pb=%d fb=%d", s.name, pb, fb))
+				}
+				if w.I == 1 {
+					c.Sample(map[string]interface{}{"scenario": s.String(), "executions_in_this_shard_of_16": st.Executions, "preemption_bound": pb, "fault_bound": fb})
+				}
+				if os.Getenv("VERIF_DEBUG") != "" {
+					fmt.Fprintf(os.Stderr, "C06 %s: %d executions, %d steps\n", s.name, st.Executions, st.Steps)
+				}
+				for _, v := range viols {
+					kind := strings.SplitN(v.Verdict, ":", 2)[0]
+					mode := "direct"
+					if s.queue {
+						mode = "queue"
+					}
+					if s.clear {
+						mode = "sendAndClear"
+					}
+					c.Violation(fmt.Sprintf("C06:%s:%s", mode, kind), fmt.Sprintf("%s — %s — choices %v", s.String(), v.Verdict, v.Choices), map[string]interface{}{"engine": "E1", "scenario": s.String(), "choices": v.Choices, "trace": v.Trace})
+				}
 			}
 		}
 		return
